@@ -50,6 +50,11 @@ def dclass(path, tids, cids):
     return "f%d" % cids.setdefault(world.sha(path), len(cids) + 1)
 
 
+def ew_T0NS_local(i):
+    import time
+    return (int(time.time()) + 100 + i) * 10**9
+
+
 def xattr_histories(sc, r, n):
     """one regular file, histories of attribute changes on either side, content changes and runs with / without -X, through the
     real binary; after every run the destination's content and user attributes are compared with Model/Xattr.v and judged
@@ -69,15 +74,18 @@ def xattr_histories(sc, r, n):
             off = 200 if big else 10
             sf, df = src + "/f.dat", dst + "/f.dat"
             nextc = [1]
+            stamp = [ew_T0NS_local(i)]
             def write():
                 c = nextc[0]; nextc[0] += 1
                 with open(sf, "wb") as fh:
                     fh.write(bytes([c]) * (off + c))
+                stamp[0] += 7 * 10**9
+                os.utime(sf, ns=(stamp[0], stamp[0]))
                 return c
             c0 = write()
             ops = []
             for _ in range(r.randrange(3, 11)):
-                ops.append(r.choice(["ss", "ss", "ss", "sd", "sd", "sw", "sw", "ds", "dd", "y", "y", "y"]))
+                ops.append(r.choice(["ss", "ss", "ss", "sd", "sd", "sw", "sw", "st", "st", "ds", "dd", "y", "y", "y"]))
             ops.append("y")
             toks = []
             outs = []
@@ -97,6 +105,12 @@ def xattr_histories(sc, r, n):
                     for kk, vv in keep.items():
                         os.setxattr(sf, kk, vv)
                     toks.append("sw:%d" % c)
+                elif o == "st":
+                    # (seed C17-4) the time stamp moves, the bytes do not (touch, checkout, restore): the planner updates the file --
+                    # a large one through a working file -- although no block differs
+                    stamp[0] += 7 * 10**9
+                    os.utime(sf, ns=(stamp[0], stamp[0]))
+                    toks.append("st")
                 elif o == "ds":
                     if os.path.isfile(df):
                         os.setxattr(df, "user.k%d" % k, str(v).encode())
